@@ -513,4 +513,45 @@ theorem spec_add_idem {log : AttSpec} {a : Att} {c : List Nat} (hok : (Spec.add 
         · rw [hr] at hok; cases hok
     · rw [if_pos hl] at hok; cases hok
 
+/-! ## `SyncCommitteeMessages.Select` on a buffer of the pool -/
+
+theorem select_spec' {b : MsgBuf} (hn : b.keys.Nodup) (hkey : ∀ e ∈ b.entries, e.1 = e.2.validator)
+    (root : Nat) (members : List Nat) :
+    select Cfg.fixed b root members = .ok (Spec.select (msgsOf b) root members) := by
+  induction members with
+  | nil => rfl
+  | cons vi rest ih =>
+    have hany : ∀ m, b.get? vi = some m →
+        ((msgsOf b).any fun m' => decide (m'.validator = vi) && decide (m'.root = root)) = decide (m.root = root) := by
+      intro m hm
+      have hv : vi = m.validator := hkey (vi, m) (GoMap.mem_of_get? hm)
+      by_cases hr : m.root = root
+      · simp only [hr, decide_true, List.any_eq_true, Bool.and_eq_true, decide_eq_true_eq]
+        exact ⟨m, List.mem_map.mpr ⟨(vi, m), GoMap.mem_of_get? hm, rfl⟩, hv.symm, hr⟩
+      · simp only [hr, decide_false]
+        rw [List.any_eq_false]
+        intro m' hm'
+        obtain ⟨e, he, rfl⟩ := List.mem_map.mp hm'
+        simp only [Bool.and_eq_true, decide_eq_true_eq, not_and]
+        intro hv'
+        have : b.get? vi = some e.2 := GoMap.get?_of_mem hn (by rw [← hv', ← hkey e he]; exact he)
+        rw [hm] at this; cases this; exact hr
+    simp only [select, Spec.select, List.filter_cons]
+    cases hg : b.get? vi with
+    | some m =>
+      have hv : vi = m.validator := hkey (vi, m) (GoMap.mem_of_get? hg)
+      simp only [ih, Spec.select, hany m hg]
+      by_cases hr : m.root = root <;> simp [hr, ← hv]
+    | none =>
+      have hnone : ((msgsOf b).any fun m' => decide (m'.validator = vi) && decide (m'.root = root)) = false := by
+        rw [List.any_eq_false]
+        intro m' hm'
+        obtain ⟨e, he, rfl⟩ := List.mem_map.mp hm'
+        simp only [Bool.and_eq_true, decide_eq_true_eq, not_and]
+        intro hv'
+        exfalso
+        apply GoMap.get?_eq_none_iff.mp hg
+        exact List.mem_map.mpr ⟨e, he, by rw [hkey e he, hv']⟩
+      simp only [Cfg.fixed, if_true, ih, Spec.select, hnone, Bool.false_eq_true, if_false]
+
 end Zrnt.Pool
